@@ -5,13 +5,14 @@
 cd "$(dirname "$0")"
 mkdir -p work evidence replays .cache/numba
 /venv/bin/python harness/gen_consts.py || echo "setup: gen_consts failed (checks will report it)"
+/venv/bin/python harness/py2coq.py || echo "setup: py2coq failed (checks will report it)"
 cd coq
 { echo "-Q . QE"; echo "-arg -w -arg -deprecated-hint-rewrite-without-locality,-deprecated-instance-without-locality,-notation-overridden,-ambiguous-paths"; find . -name '*.v' | sed 's|^\./||' | LC_ALL=C sort; } > _CoqProject
 coq_makefile -f _CoqProject -o Makefile >/dev/null || exit 1
 targets=""
 for m in ../harness/meta/C*.json; do
   id=$(basename "$m" .json)
-  [ -f "$id/Props.v" ] && targets="$targets $id/Props.vo"
+  for f in $id/Props*.v; do [ -f "$f" ] && targets="$targets ${f%.v}.vo"; done
 done
 timeout 3400 make -k -j"${VERIF_JOBS:-16}" $targets 2>&1 | grep -v "^COQDEP\|^COQC\|^Closed under" | tail -n 40
 echo "setup: built targets:$targets"
